@@ -111,6 +111,10 @@ func ruleC15(c *Check) {
 			cur := fmt.Sprintf("(res 0 (%s %s))", gOwner.Name, prov)
 			_, empty := hasFact(e.Guards, "(nonempty "+cur+")", true)
 			_, nf := hasFact(e.Guards, fmt.Sprintf("(res 1 (%s %s))", gOwner.Name, prov), true)
+			// or entailed: e.g. (¬found ∨ ¬equal) from the write's own guard with (¬found ∨ equal) from the owner check
+			if !nf {
+				nf = e.Guards.Holds(parseTerm(fmt.Sprintf("(res 1 (%s %s))", gOwner.Name, prov)), false)
+			}
 			c.req(empty || nf, "C15.5", effConstruct("MsgBindService", e), e.Pos, "the owner of a provider is recorded only when the provider has no owner yet")
 		}
 		if e := fams["0x02"]; e != nil {
